@@ -1,5 +1,5 @@
 """Property registry: which rules decide which property, and what each check claims."""
-import r_own, r_shrink, r_reach, r_layout, r_retain, r_num, r_index, r_growth, r_size, r_text
+import r_own, r_shrink, r_reach, r_layout, r_retain, r_num, r_index, r_growth, r_size, r_text, r_deleg, r_config
 
 RULE_DOC = {
     "R1": "no buffer access through a handle after it gave up its reference",
@@ -117,6 +117,34 @@ def rules_C14(ctx):
     r_num.rule_into_repr(ctx)
 
 
+def rules_C15(ctx):
+    r_num.rule_dispatch(ctx, want=["bool", "char", "alloc::string::String", "LeanString", "f32", "f64"])
+    r_deleg.rule_C15(ctx)
+    r_num.rule_into_repr(ctx)
+
+
+def rules_C16(ctx):
+    r_deleg.rule_C16(ctx)
+
+
+def rules_C17(ctx):
+    r_deleg.rule_C17(ctx)
+
+
+def rules_C19(ctx):
+    r_deleg.rule_C19(ctx)
+    r_config.rule_cargo_features(ctx)
+
+
+def rules_C20(ctx):
+    r_text.rule_niche(ctx)
+    r_text.rule_T1(ctx)
+    r_text.rule_T5(ctx)
+    r_config.rule_debug_regions(ctx)
+    r_config.rule_unchecked_sites(ctx)
+    r_config.rule_cargo_features(ctx)
+
+
 def rules_C08(ctx):
     r_reach.rule_C08(ctx)
     ctx.take_ts(["P1", "DUP"])
@@ -163,6 +191,16 @@ PROPS = {
             "explanation": "Reader/writer agreement on the capacity word: HeapBuffer::capacity reads header().capacity; Header values are written only next to the allocator call with the very capacity the block was sized with; Repr::capacity and the mutable slice of as_slice_mut agree arm by arm (heap: HeapBuffer::capacity, inline: MAX_INLINE_SIZE = size of the inline array); reserve's computed summary: every Ok exit owns its storage exclusively; within-capacity fast paths (unique heap with capacity >= len+additional, inline within the limit) reach no allocation and no reassignment; realloc happens only behind capacity < needed and to amortized_growth(len, additional)."},
     "C13": {"rules": rules_C13, "level": "other",
             "explanation": "The growth rule (amortized_growth) is unreachable from Repr::shrink_to; every buffer-changing call in shrink_to is dominated by the edge max(len, min_capacity) < old capacity and sized with exactly max(len, min_capacity); the heap-to-inline conversion sits behind max(len, min) <= MAX_INLINE_SIZE; non-heap receivers return Ok untouched (typestate walk); the bytes copied are the receiver's own text."},
+    "C15": {"rules": rules_C15, "level": "other",
+            "explanation": "Dispatch arms of try_to_lean_string: &bool -> Repr::from_bool, &char -> Repr::from_char, &String -> Repr::from_str(s.as_str()), &LeanString -> Clone::clone, &f32/&f64 -> from_num -> Repr::from_str(ryu::Buffer::format(x)) (format, not format_finite: NaN/inf handled), each on its own cast value; generic fallback formats into LeanString::new() through fmt::Write whose only override is write_str = push_str; Ok(()); `?` maps fmt::Error through From -> Fmt and ReserveError -> Reserve (bodies build exactly that variant); from_bool's compiler-evaluated TRUE/FALSE constants are the inline encodings of \"true\"/\"false\" selected on the right edges; from_char encodes with encode_utf8. The outputs of ryu/itoa/Display themselves are trusted library behaviour, not decided."},
+    "C16": {"rules": rules_C16, "level": "other",
+            "explanation": "Agreement with std by shared delegation: from_utf8 = LeanString::from(core::str::from_utf8(buf)?) with core's error propagated unchanged; from_utf8_lossy iterates buf.utf8_chunks(), appends chunk.valid() and pushes U+FFFD exactly on the edge !chunk.invalid().is_empty(), valid part first; from_utf16 pushes every Ok item of char::decode_utf16(buf.iter().copied()) and returns Err(FromUtf16Error) on the decoder's first Err; from_utf16_lossy = decode.map(|r| r.unwrap_or(U+FFFD)).collect::<LeanString>(); none of the four compares or computes on an input unit itself, so every decoding decision is core's (the same routines String's constructors use)."},
+    "C17": {"rules": rules_C17, "level": "other",
+            "explanation": "Every impl of PartialEq/Eq/PartialOrd/Ord/Hash/Display/Debug/Deref/AsRef/Borrow involving LeanString (enumerated from the compiler's impl table, incl. feature-gated AsRef<OsStr>) has a single-expression body that delegates to the same method of str on as_str() of each LeanString argument and nothing else (no field projection, pointer or capacity comparison, no second return path); partial_cmp = Some(cmp); PartialEq exists in both directions for str, &str, String, Cow<str>; Eq/Ord/Hash/Borrow<str> present; no derived structural impl; as_str/as_bytes/len/is_empty are the Repr views."},
+    "C19": {"rules": rules_C19, "level": "other",
+            "explanation": "With the features on (all-features configuration): Serialize = <str as Serialize>::serialize(as_str(self), s); Deserialize = deserialize_string(visitor); the visitor has visit_str / visit_borrowed_str (LeanString::from(v)) and visit_bytes / visit_borrowed_bytes (core::str::from_utf8(v): Ok -> from(s), Err -> invalid_value(Unexpected::Bytes(v))), no unchecked/lossy call; Arbitrary::{arbitrary, arbitrary_take_rest, size_hint} = the <&str as Arbitrary> method of the same name (.map(LeanString::from)). With the features off the impls are absent; Cargo.toml keeps both dependencies optional."},
+    "C20": {"rules": rules_C20, "cross": r_config.cross_C20, "level": "other",
+            "explanation": "Per target (compiler layout tables): LeanString, Repr and Option of both are two words, word aligned, with the niche at the last byte and valid range 0..=StaticMarker; LastByte discriminants are exactly 0..=StaticMarker and every byte the crate can store in the last position (UTF-8 finals < 0xC0, 0xC0|len for len < MAX_INLINE_SIZE by the T5 guard, the two markers by T1) is a valid one - checked for all 256 values, so Some(s) never aliases None. Configurations: every configuration of the tier must build (thorough: 5 feature sets x debug on/off, and --no-default-features on i686 / powerpc64 / powerpc with -Zbuild-std=core,alloc, i.e. against a sysroot without std); core bodies have identical MIR across feature sets; debug on/off bodies are identical outside debug-only regions, which contain only shared-reference reads and panics; every *_unchecked / unreachable_unchecked site is in the audited table and each unreachable_unchecked sits on the Err arm of the expected fallible call next to a debug-only panic twin."},
     "C18": {"rules": rules_C18, "level": "other",
             "explanation": "Maybe-initialised dataflow: in every body that contains a user-code edge (unresolved trait call on a type parameter, callback-taking library call, drop of a generic value), no local of a heap-capable type without drop glue (Repr, HeapBuffer) is initialised across that edge; accumulators must be LeanString (drop glue) or &mut self. U2: a user-code edge taken while a mutable view of the string is live (retain's predicate) has a guard object dropped on its unwind path whose Drop calls Repr::set_len on every path, with a length field advanced only after the bytes were written."},
 }
